@@ -20,7 +20,7 @@ from ..util import (
     urlsafe_b64encode,
 )
 from ..errors import BadSignatureError
-from .registry import JWSRegistry
+from .registry import JWSRegistry, construct_registry
 from ..registry import check_disjoint_headers
 
 
@@ -37,8 +37,7 @@ def serialize_json(
     if not _member.protected or "b64" not in _member.protected:
         return _serialize_json(member, payload, private_key, algorithms, registry)
 
-    if registry is None:
-        registry = JWSRegistry(algorithms=algorithms)
+    registry = construct_registry(algorithms, registry)
 
     if _member.protected["b64"] is True:
         return _serialize_json(member, payload, private_key, registry=registry)
@@ -79,8 +78,7 @@ def deserialize_json(
     if obj is None:
         return _deserialize_json(value, public_key, algorithms, registry)
 
-    if registry is None:
-        registry = JWSRegistry(algorithms=algorithms)
+    registry = construct_registry(algorithms, registry)
 
     assert obj.member.protected is not None
     if obj.member.protected["b64"] is True:
